@@ -222,6 +222,12 @@ type ProgCase struct {
 	Palette ops.Palette `json:"palette"`
 	Ops     []ops.Op    `json:"ops"`
 	HiRes   []bool      `json:"hires"` // per path
+	// MidPathToggle: op indices (inside paths) after which the public
+	// HighResolutionCoordinates field is flipped; the resolution is latched at
+	// StartPath, so this must not change anything.
+	MidPathToggle []int `json:"mid_path_toggle,omitempty"`
+	// ZeroValue: use a zero-value Encoder instead of Reset (default metadata only).
+	ZeroValue bool `json:"zero_value,omitempty"`
 }
 
 func encodeProgram(c ProgCase, zeroValue bool) ([]byte, []bool, error) {
@@ -233,22 +239,34 @@ func encodeProgram(c ProgCase, zeroValue bool) ([]byte, []bool, error) {
 	lowRes := make([]bool, len(c.Ops)+1)
 	path := -1
 	cur := true
+	toggle := map[int]bool{}
+	for _, k := range c.MidPathToggle {
+		toggle[k] = true
+	}
+	inPath := false
 	for i, o := range c.Ops {
 		if o.K == ops.StartPath {
 			path++
 			hi := path < len(c.HiRes) && c.HiRes[path]
 			enc.HighResolutionCoordinates = hi
 			cur = !hi
+			inPath = true
 		}
 		lowRes[i+1] = cur
 		ops.Apply(&enc, o)
+		if o.K == ops.ClosePathEndPath {
+			inPath = false
+		}
+		if inPath && toggle[i] {
+			enc.HighResolutionCoordinates = !enc.HighResolutionCoordinates
+		}
 	}
 	b, err := enc.Bytes()
 	return append([]byte{}, b...), lowRes, err
 }
 
 func checkRoundTrip(c ProgCase) error {
-	b, lowRes, err := encodeProgram(c, false)
+	b, lowRes, err := encodeProgram(c, c.ZeroValue)
 	if err != nil {
 		return harness.Violatef("c01/bytes-error", "Bytes() failed for a well-formed program: %v", err)
 	}
@@ -298,9 +316,26 @@ func genProgCase(t *rapid.T) (ProgCase, []string) {
 		num = func(t *rapid.T, l string) float32 { return gen.Grid(t, l, 127) }
 	}
 	c.Ops = gen.Program(t, gen.ProgCfg{Num: num})
-	for _, o := range c.Ops {
+	inPath := false
+	for i, o := range c.Ops {
 		if o.K == ops.StartPath {
 			c.HiRes = append(c.HiRes, rapid.Bool().Draw(t, "hires"))
+			inPath = true
+		}
+		if o.K == ops.ClosePathEndPath {
+			inPath = false
+		}
+		if inPath && rapid.IntRange(0, 15).Draw(t, "toggle") == 0 {
+			c.MidPathToggle = append(c.MidPathToggle, i)
+		}
+	}
+	if len(c.MidPathToggle) > 0 {
+		labels = append(labels, "resolution-flag-flipped-mid-path")
+	}
+	if len(labels) == 0 || (len(labels) == 1 && labels[0] == "resolution-flag-flipped-mid-path") {
+		if c.ViewBox == [4]ops.F32{-32, -32, 32, 32} && c.Palette == ops.DefaultPalette() && rapid.Bool().Draw(t, "zerovalue") {
+			c.ZeroValue = true
+			labels = append(labels, "zero-value-encoder")
 		}
 	}
 	return c, labels
